@@ -32,6 +32,9 @@ theorem canonV_isNone : ∀ (f : FieldDecl) (v : PyVal), (canonV f v).isNone = v
   | .seqOf _ _ _, v => by cases v <;> simp [canonV, PyVal.isNone]
   | .setOf _ _ _, v => by cases v <;> simp [canonV, PyVal.isNone]
   | .tuplePos _ _, v => by cases v <;> simp [canonV, PyVal.isNone]
+  | .tupleOf _ _, v => by cases v <;> simp [canonV, PyVal.isNone]
+  | .seqPos .list _ _ _, v => by cases v <;> simp [canonV, PyVal.isNone]
+  | .seqPos .deque _ _ _, _ => by simp [canonV]
   | .mapOf _ _ _, v => by cases v <;> simp [canonV, PyVal.isNone]
   | .struct _ _ _, v => by cases v <;> simp [canonV, PyVal.isNone]
   | .number _, _ => by simp [canonV]
@@ -42,8 +45,6 @@ theorem canonV_isNone : ∀ (f : FieldDecl) (v : PyVal), (canonV f v).isNone = v
   | .noneF, _ => by simp [canonV]
   | .enumLit _, _ => by simp [canonV]
   | .enumCls _ _, _ => by simp [canonV]
-  | .tupleOf _ _, _ => by simp [canonV]
-  | .seqPos _ _ _ _, _ => by simp [canonV]
   | .seqAny _ _, _ => by simp [canonV]
   | .setAny _ _, _ => by simp [canonV]
   | .mapAny _, _ => by simp [canonV]
@@ -235,6 +236,30 @@ theorem fser_equiv : ∀ (f : FieldDecl) (v : PyVal),
     · simp only [fser, fList, iterElems, canonV, ser, sSeq, seqLike, hz]
     · simp only [canonV, ser, sSeq, seqLike] at hj
       exact bindE_list_nonNone hj
+  | .tupleOf item uniq, v, hs, hw => by
+    simp only [fsafeD] at hs
+    simp only [fwf] at hw
+    cases v <;> simp at hw
+    rename_i xs
+    have hall : ∀ x ∈ xs, fwf O item x = true := hw
+    have hcongr : mapE (fser noMappers [] item) xs = mapE (ser O item) (xs.map (canonV item)) := by
+      rw [mapE_map]
+      exact mapE_congr xs (fun x hx => (fser_equiv item x hs (hall x hx)).1)
+    refine ⟨?_, fun _ j hj => ?_⟩
+    · simp only [fser, fList, iterElems, canonV, ser, sSeq, seqLike, hcongr]
+    · simp only [canonV, ser, sSeq, seqLike] at hj
+      exact bindE_list_nonNone hj
+  | .seqPos .list items addl sz, v, hs, hw => by
+    simp only [fsafeD] at hs
+    simp only [fwf] at hw
+    cases v <;> simp at hw
+    rename_i xs
+    have hz := fserZipRaw_equiv items xs hs hw.1 hw.2
+    refine ⟨?_, fun _ j hj => ?_⟩
+    · simp only [fser, fList, iterElems, canonV, ser, sSeq, seqLike, hz]
+    · simp only [canonV, ser, sSeq, seqLike] at hj
+      exact bindE_list_nonNone hj
+  | .seqPos .deque _ _ _, _, hs, _ => by simp [fsafeD] at hs
   | .mapOf kf vf sz, v, hs, hw => by
     simp only [fsafeD, and_true_iff] at hs
     simp only [fwf] at hw
@@ -277,8 +302,6 @@ theorem fser_equiv : ∀ (f : FieldDecl) (v : PyVal),
     simp only [fsafeD] at hs
     simp only [fwf, and_true_iff, Bool.not_eq_true'] at hw
     exact fopt_equiv fs v hs hw.1 hw.2
-  | .tupleOf _ _, _, hs, _ => by simp [fsafeD] at hs
-  | .seqPos _ _ _ _, _, hs, _ => by simp [fsafeD] at hs
   | .seqAny _ _, _, hs, _ => by simp [fsafeD] at hs
   | .setAny _ _, _, hs, _ => by simp [fsafeD] at hs
   | .mapAny _, _, hs, _ => by simp [fsafeD] at hs
@@ -298,6 +321,18 @@ theorem fserZip_equiv : ∀ (items : List FieldDecl) (xs : List PyVal),
     simp only [fwfZip, and_true_iff] at hw
     simp only [fserZip, canonZip, serZip, (fser_equiv f x hs.1 hw.1).1,
       fserZip_equiv fs xs hs.2 (by simpa using hl) hw.2]
+
+theorem fserZipRaw_equiv : ∀ (items : List FieldDecl) (xs : List PyVal),
+    fsafeL [] items = true → xs.length = items.length → fwfZip O items xs = true →
+    fserZipRaw noMappers [] items xs = serZip O items (canonZip items xs)
+  | [], [], _, _, _ => by simp [fserZipRaw, serZip, canonZip, serAnyList]
+  | [], _ :: _, _, hl, _ => by simp at hl
+  | _ :: _, [], _, hl, _ => by simp at hl
+  | f :: fs, x :: xs, hs, hl, hw => by
+    simp only [fsafeL, and_true_iff] at hs
+    simp only [fwfZip, and_true_iff] at hw
+    simp only [fserZipRaw, canonZip, serZip, (fser_equiv f x hs.1 hw.1).1,
+      fserZipRaw_equiv fs xs hs.2 (by simpa using hl) hw.2]
 
 theorem fopt_equiv : ∀ (fs : List FieldDecl) (v : PyVal),
     fsafeOpt [] fs = true → v.isNone = false → fwfAny O fs v = true → FsEq O (.anyOf fs) v
